@@ -56,11 +56,26 @@ pub fn add_tcp_cluster(
     v6: bool,
     front_timeout: Option<u32>,
 ) -> Result<ClusterAddrs, String> {
+    add_tcp_cluster_ct(w, id, mode, v6, front_timeout, None)
+}
+
+/// same, with the listener's connect_timeout (seconds) for backends that accept late
+pub fn add_tcp_cluster_ct(
+    w: &mut Worker,
+    id: &str,
+    mode: Option<ProxyProtocolConfig>,
+    v6: bool,
+    front_timeout: Option<u32>,
+    connect_timeout: Option<u32>,
+) -> Result<ClusterAddrs, String> {
     let t = Duration::from_secs(5);
     let front = free_addr_fam(v6);
     let back = free_addr_fam(v6);
     let mut lb = ListenerBuilder::new_tcp(front.into());
     lb.with_front_timeout(front_timeout);
+    if connect_timeout.is_some() {
+        lb.with_connect_timeout(connect_timeout);
+    }
     let l = lb.to_tcp(None).map_err(|e| format!("tcp listener: {e}"))?;
     if !ok(&w.request(RequestType::AddTcpListener(l), t)) {
         return Err("AddTcpListener refused".into());
@@ -189,10 +204,15 @@ fn hex_addr(a: &SocketAddr) -> String {
 /// `remote` (for us: sozu's accepted socket). None if the socket does not exist (closed).
 /// Exact-match sock_diag lookup over netlink (O(1)); falls back to scanning /proc/net/tcp.
 pub fn rx_queue(local: &SocketAddr, remote: &SocketAddr) -> Option<u64> {
-    match diag_rx_queue(local, remote) {
-        Ok(v) => v,
+    match diag_queues(local, remote) {
+        Ok(v) => v.map(|q| q.0),
         Err(()) => proc_rx_queue(local, remote),
     }
+}
+
+/// (receive queue, send queue) of the socket local -> remote, through sock_diag only
+pub fn queues(local: &SocketAddr, remote: &SocketAddr) -> Option<(u64, u64)> {
+    diag_queues(local, remote).ok().flatten()
 }
 
 fn ip_words(a: &SocketAddr) -> [u8; 16] {
@@ -206,6 +226,10 @@ fn ip_words(a: &SocketAddr) -> [u8; 16] {
 
 /// Ok(Some(rqueue)) socket found, Ok(None) no such socket, Err(()) netlink unusable here.
 fn diag_rx_queue(local: &SocketAddr, remote: &SocketAddr) -> Result<Option<u64>, ()> {
+    diag_queues(local, remote).map(|o| o.map(|q| q.0))
+}
+
+fn diag_queues(local: &SocketAddr, remote: &SocketAddr) -> Result<Option<(u64, u64)>, ()> {
     const NETLINK_SOCK_DIAG: i32 = 4;
     const SOCK_DIAG_BY_FAMILY: u16 = 20;
     thread_local! { static NL: std::cell::Cell<i32> = const { std::cell::Cell::new(-2) }; }
@@ -267,7 +291,8 @@ fn diag_rx_queue(local: &SocketAddr, remote: &SocketAddr) -> Result<Option<u64>,
     // inet_diag_msg: family state timer retrans (4) sockid(48) expires(4) rqueue(4) wqueue(4) uid inode
     let m = &buf[16..];
     let rq = u32::from_ne_bytes([m[56], m[57], m[58], m[59]]);
-    Ok(Some(rq as u64))
+    let wq = u32::from_ne_bytes([m[60], m[61], m[62], m[63]]);
+    Ok(Some((rq as u64, wq as u64)))
 }
 
 fn proc_rx_queue(local: &SocketAddr, remote: &SocketAddr) -> Option<u64> {
@@ -427,4 +452,192 @@ pub fn fd_of(s: &TcpStream) -> i32 {
 
 pub fn fd_of_listener(l: &TcpListener) -> i32 {
     l.as_raw_fd()
+}
+
+// ---- sockets of the worker threads (they live in this process) -------------------------------
+// Pacing only: the kernel buffers of sozu's own sockets are part of the environment (tcp_wmem /
+// tcp_rmem of the host); a small send buffer makes "the peer does not take the bytes" reachable
+// with kilobytes instead of megabytes. Nothing here is used as an oracle.
+
+fn sockaddr_of(ss: &libc::sockaddr_storage) -> Option<SocketAddr> {
+    unsafe {
+        match ss.ss_family as i32 {
+            libc::AF_INET => {
+                let a = &*(ss as *const _ as *const libc::sockaddr_in);
+                Some(SocketAddr::from((Ipv4Addr::from(a.sin_addr.s_addr.to_ne_bytes()), u16::from_be(a.sin_port))))
+            }
+            libc::AF_INET6 => {
+                let a = &*(ss as *const _ as *const libc::sockaddr_in6);
+                Some(SocketAddr::from((Ipv6Addr::from(a.sin6_addr.s6_addr), u16::from_be(a.sin6_port))))
+            }
+            _ => None,
+        }
+    }
+}
+
+pub fn sock_pair_of(fd: i32) -> Option<(SocketAddr, SocketAddr)> {
+    unsafe {
+        let mut ls: libc::sockaddr_storage = std::mem::zeroed();
+        let mut l = std::mem::size_of::<libc::sockaddr_storage>() as libc::socklen_t;
+        if libc::getsockname(fd, &mut ls as *mut _ as *mut libc::sockaddr, &mut l) != 0 {
+            return None;
+        }
+        let local = sockaddr_of(&ls)?;
+        let mut ps: libc::sockaddr_storage = std::mem::zeroed();
+        let mut l = std::mem::size_of::<libc::sockaddr_storage>() as libc::socklen_t;
+        if libc::getpeername(fd, &mut ps as *mut _ as *mut libc::sockaddr, &mut l) != 0 {
+            return None;
+        }
+        Some((local, sockaddr_of(&ps)?))
+    }
+}
+
+/// the descriptor (of any thread of this process) of the TCP connection local -> peer
+pub fn find_fd(local: SocketAddr, peer: SocketAddr) -> Option<i32> {
+    let dir = std::fs::read_dir("/proc/self/fd").ok()?;
+    for e in dir.flatten() {
+        if let Some(fd) = e.file_name().to_str().and_then(|n| n.parse::<i32>().ok()) {
+            if sock_pair_of(fd) == Some((local, peer)) {
+                return Some(fd);
+            }
+        }
+    }
+    None
+}
+
+pub fn find_fd_within(local: SocketAddr, peer: SocketAddr, timeout: Duration) -> Option<i32> {
+    let t0 = Instant::now();
+    loop {
+        if let Some(fd) = find_fd(local, peer) {
+            return Some(fd);
+        }
+        if t0.elapsed() >= timeout {
+            return None;
+        }
+        std::thread::sleep(Duration::from_millis(2));
+    }
+}
+
+/// SO_SNDBUF of the worker's socket local -> peer (only while the descriptor still is that connection).
+/// Returns the value the kernel reports afterwards.
+pub fn shrink_sndbuf(local: SocketAddr, peer: SocketAddr, bytes: usize, timeout: Duration) -> Option<i32> {
+    let fd = find_fd_within(local, peer, timeout)?;
+    if sock_pair_of(fd) != Some((local, peer)) {
+        return None;
+    }
+    let want = bytes as libc::c_int;
+    let mut v: libc::c_int = 0;
+    let mut l = 4 as libc::socklen_t;
+    unsafe {
+        libc::setsockopt(fd, libc::SOL_SOCKET, libc::SO_SNDBUF, &want as *const _ as *const libc::c_void, 4);
+        libc::getsockopt(fd, libc::SOL_SOCKET, libc::SO_SNDBUF, &mut v as *mut _ as *mut libc::c_void, &mut l);
+    }
+    Some(v)
+}
+
+/// bytes written to the socket that the peer's kernel has not acknowledged yet
+pub fn outq(fd: i32) -> Option<u64> {
+    let mut v: libc::c_int = 0;
+    if unsafe { libc::ioctl(fd, libc::TIOCOUTQ, &mut v) } == 0 { Some(v.max(0) as u64) } else { None }
+}
+
+/// bytes received and not read
+pub fn inq(fd: i32) -> Option<u64> {
+    let mut v: libc::c_int = 0;
+    if unsafe { libc::ioctl(fd, libc::FIONREAD, &mut v) } == 0 { Some(v.max(0) as u64) } else { None }
+}
+
+// ---- a backend whose accept queue can be held full -------------------------------------------
+// listen(fd, 0) leaves room for exactly one established connection; while the gate is closed that
+// place is taken by a filler connection of our own, so the SYN of sozu is dropped by the kernel
+// (tcp_abort_on_overflow = 0) and retransmitted 1 s, 3 s, 7 s ... later: sozu's non-blocking
+// connect() stays pending, exactly as towards a slow or distant backend.
+
+pub struct GatedRecorder {
+    pub rec: Recorder,
+    gate: Arc<(Mutex<bool>, Condvar)>,
+    filler: Mutex<Option<TcpStream>>,
+}
+
+impl GatedRecorder {
+    pub fn start(addr: SocketAddr) -> std::io::Result<GatedRecorder> {
+        let l = TcpListener::bind(addr)?;
+        unsafe { libc::listen(l.as_raw_fd(), 0) };
+        let state: Arc<(Mutex<RecState>, Condvar)> = Arc::new((Mutex::new(RecState::default()), Condvar::new()));
+        let gate: Arc<(Mutex<bool>, Condvar)> = Arc::new((Mutex::new(true), Condvar::new()));
+        let (st, g2) = (state.clone(), gate.clone());
+        l.set_nonblocking(true)?;
+        std::thread::spawn(move || {
+            loop {
+                // accept only while holding the gate: once hold() has the lock nothing is accepted any more
+                let got = {
+                    let mut open = g2.0.lock().unwrap();
+                    while !*open {
+                        open = g2.1.wait(open).unwrap();
+                    }
+                    l.accept()
+                };
+                let Ok((mut s, peer)) = got else {
+                    std::thread::sleep(Duration::from_micros(500));
+                    continue;
+                };
+                let _ = s.set_nonblocking(false);
+                let idx = {
+                    let mut g = st.0.lock().unwrap();
+                    g.conns.push(ConnRec { peer: Some(peer), ..Default::default() });
+                    st.1.notify_all();
+                    g.conns.len() - 1
+                };
+                let st2 = st.clone();
+                std::thread::spawn(move || {
+                    let mut buf = [0u8; 16384];
+                    loop {
+                        match s.read(&mut buf) {
+                            Ok(0) => {
+                                let mut g = st2.0.lock().unwrap();
+                                g.conns[idx].eof = true;
+                                st2.1.notify_all();
+                                return;
+                            }
+                            Ok(n) => {
+                                let mut g = st2.0.lock().unwrap();
+                                g.conns[idx].bytes.extend_from_slice(&buf[..n]);
+                                st2.1.notify_all();
+                            }
+                            Err(e) => {
+                                let mut g = st2.0.lock().unwrap();
+                                g.conns[idx].err = Some(format!("{:?}", e.kind()));
+                                g.conns[idx].eof = true;
+                                st2.1.notify_all();
+                                return;
+                            }
+                        }
+                    }
+                });
+            }
+        });
+        Ok(GatedRecorder { rec: Recorder { state, addr }, gate, filler: Mutex::new(None) })
+    }
+
+    /// Stop accepting and fill the accept queue. Returns false if the queue could not be filled
+    /// (then a later connection would simply succeed: the behaviour degenerates to a fast connect).
+    pub fn hold(&self) -> bool {
+        *self.gate.0.lock().unwrap() = false;
+        match TcpStream::connect_timeout(&self.rec.addr, Duration::from_millis(1000)) {
+            Ok(f) => {
+                *self.filler.lock().unwrap() = Some(f);
+                true
+            }
+            Err(_) => false,
+        }
+    }
+
+    /// Accept again (the filler is accepted first and closed by us).
+    pub fn release(&self) {
+        if let Some(f) = self.filler.lock().unwrap().take() {
+            drop(f);
+        }
+        *self.gate.0.lock().unwrap() = true;
+        self.gate.1.notify_all();
+    }
 }
